@@ -1780,34 +1780,34 @@ func DecodeChunking(b []byte) Chunking {
 var PartRT = &vkit.Part[CaseRT]{
 	Property: Property, Name: "roundtrip",
 	Rule:  "rapid: a script of 1-14 typed writes (bool,u8,u16/i16,u32/i32,u64/i64,varU32/I32/U64/I64,f64 from raw bits incl. NaN payloads/+-Inf/-0, string incl. \"\" / non-UTF-8 / >1 KiB, limit-string with write and read limit </=/> len, raw bytes read back by Read/ReadN/ZReadN) with boundary values on NewBufferX/NewSizedBufferX/NewReadableBufferX(nil); the same reads must return the written values bit for bit, then Len()==0 and a further read fails; WriteLimitString errs exactly when len>limit and then writes nothing. Non-trivial: >= 3 accepted writes with >= 1 string; distinct = distinct case JSON",
-	Quick: 20000, Thorough: 150000,
+	Quick: 60000, Thorough: 150000,
 	Gen: GenRT, Exec: ExecRT,
 }
 
 var PartRW = &vkit.Part[CaseRW]{
 	Property: Property, Name: "rewrite",
 	Rule:  "rapid: 2-12 steps of typed write / consume k bytes / ReWrite(pos,bytes) / ReWriteU32(pos,v) with pos and length inside the unread region (0, end, random; whole region; empty), folded over the model length; after every rewrite Bytes() must equal a byte-slice model in which exactly [pos,pos+len) changed (ReWriteU32: the four bytes read back as v), writes must not disturb earlier bytes, and draining returns the model. Non-trivial: >= 3 steps, >= 1 rewrite that alters a byte and >= 1 rewrite smaller than the region; distinct = distinct case JSON",
-	Quick: 15000, Thorough: 100000,
+	Quick: 45000, Thorough: 100000,
 	Gen: GenRW, Exec: ExecRW,
 }
 
 var PartTrunc = &vkit.Part[CaseTrunc]{
 	Property: Property, Name: "truncated",
 	Rule:  "rapid: a script of 1-10 typed writes is encoded by BufferX itself (op boundaries = Len() after each write), cut at an op boundary / strictly inside an op / one byte short / anywhere, and read by a fresh BufferX: every value wholly before the cut must come back, the first read that reaches past it must return an error and never a value (then stop), no panic. Non-trivial: >= 3 ops with >= 1 string and 0 < cut < length; distinct = distinct case JSON",
-	Quick: 15000, Thorough: 100000,
+	Quick: 45000, Thorough: 100000,
 	Gen: GenTrunc, Exec: ExecTrunc,
 }
 
 var PartArb = &vkit.Part[CaseArb]{
 	Property: Property, Name: "arbitrary",
 	Rule:  "rapid: bytes = valid encoding / damaged encoding (truncate, hostile length prefixes and varints, insert, delete, bit flip, garbage tail) / hostile constants / random, read script = the matching one (plus zero-length reads and one read beyond the end) or arbitrary typed reads and Read/ReadN/ZReadN with n in {-1,0,1,rest,rest+1,..}; BufferX against a harness-side decoder of the documented format: unsatisfiable read => error and no value, satisfiable => the denoted value, stop at the first failing read, Len() at the end, no panic. Not asserted: 64-bit varint overflow, oversize varints through 32-bit readers, ReadBool of bytes > 1, ReadN(0). Non-trivial: >= 3 reads executed incl. >= 1 string read; distinct = distinct case JSON",
-	Quick: 20000, Thorough: 150000,
+	Quick: 60000, Thorough: 150000,
 	Gen: GenArb, Exec: ExecArb,
 }
 
 var PartDiff = &vkit.Part[CaseDiff]{
 	Property: Property, Name: "differential",
 	Rule:  "rapid: payload and read script as in part arbitrary but restricted to what both readers expose (typed reads, strings, Read(p), ReadN/ZReadN with n in {-1,0,1,..}); the source io.Reader fragments the payload by a chunk plan (1 byte at a time, fixed k, random splits, boundaries aimed inside fixed-width fields, all at once; zero-length reads interleaved; optionally io.EOF delivered with the last bytes); ReaderX over that source must yield the same sequence of (value | error-ness) as BufferX over the same bytes, compared up to and including the first failing read. Guards: unlimited ReadString / admitted ReadLimitString only when the length prefix <= 1 MiB, raw reads <= 1 MiB (skips counted). Non-trivial: >= 3 reads executed incl. >= 1 string and a chunk boundary strictly inside a fixed-width field (or string length prefix) that was read; distinct = distinct case JSON",
-	Quick: 40000, Thorough: 300000,
+	Quick: 120000, Thorough: 300000,
 	Gen: GenDiff, Exec: ExecDiff,
 }
